@@ -200,4 +200,9 @@ def run_check(prop, tier, fn):
     except Infra as e:
         print("INFRA-ERROR property=%s: %s" % (prop, e), file=sys.stderr)
         return 2
+    except Exception as e:      # a crash of the analyser is never a verdict on /repo
+        import traceback
+        traceback.print_exc()
+        print("INFRA-ERROR property=%s: analyser crashed: %s: %s" % (prop, type(e).__name__, e), file=sys.stderr)
+        return 2
     return finish(rep, level, coverage, assumptions)
